@@ -1,6 +1,7 @@
 package otto
 
 import (
+	"fmt"
 	"math"
 	"time"
 )
@@ -66,6 +67,10 @@ func builtinDateToISOString(call FunctionCall) Value {
 	date := dateObjectOf(call.runtime, call.thisObject())
 	if date.isNaN {
 		panic(call.runtime.panicRangeError("Invalid time value"))
+	}
+	if year := date.Time().Year(); year < 0 || year > 9999 {
+		// 15.9.1.15.1: years outside 0..9999 are written as a sign and six digits.
+		return stringValue(fmt.Sprintf("%+07d", year) + date.Time().Format("-01-02T15:04:05.000Z"))
 	}
 	return stringValue(date.Time().Format("2006-01-02T15:04:05.000Z"))
 }
